@@ -516,6 +516,13 @@ void harness_v6_roundtrip(void)
 			VASSUME(g[i] == 0);
 		else
 			VASSUME(g[i] != 0);
+#ifdef RT_DIGITS
+		/* every non-zero group is printed with exactly RT_DIGITS hex digits: keeps all string positions
+		 * constant for the symbolic execution (mixed digit counts are outside this job's bound)
+		 */
+		if (!(ZMASK & (0x80 >> i)))
+			VASSUME(g[i] >= (1u << (4 * (RT_DIGITS - 1))) && (RT_DIGITS == 4 || g[i] < (1u << (4 * RT_DIGITS))));
+#endif
 	}
 	for (int i = 0; i < 4; i++)
 		a.addr[i] = ((uint32_t)g[2 * i] << 16) | g[2 * i + 1];
